@@ -193,11 +193,17 @@ def _oracle_stream(ctx, G, OFF, only, rterms, rinfo):
         nver = r.choice([1, 2, 3])
         scenario = r.choice(["flip", "flip", "truncate", "other-file", "forged-with-our-key", "forged-with-our-key", "older-version", "mix",
                              "header-forgery", "header-forgery", "rehash-ownleaf", "rehash-ownleaf", "offset-forgery", "offset-forgery"])
+        # every kind of scenario is exercised in every run (the first cases), the rest is drawn at random
+        FORCED = ["multi-share-header-flip", "multi-share-header-flip", "header-forgery", "header-forgery", "header-forgery", "header-forgery",
+                  "offset-forgery", "offset-forgery", "rehash-ownleaf", "rehash-ownleaf", "forged-with-our-key", "older-version", "other-file",
+                  "truncate", "flip", "mix"]
+        if i < len(FORCED):
+            scenario = FORCED[i]
         if scenario == "offset-forgery":
             # needs at least k shares to forge AND at least k left intact
             k, N = r.choice([(1, 3), (2, 4), (2, 5), (3, 6), (1, 2)])
             S = r.choice([N, N + 1])
-        if i < 2 or r.random() < 0.12:
+        if scenario == "multi-share-header-flip" or (i >= len(FORCED) and r.random() < 0.12):
             # servers holding SEVERAL shares each: what the survey concludes about one share must not spill over to its neighbour
             scenario = "multi-share-header-flip"
             k, N, S = r.choice([(3, 10, 5), (3, 8, 4), (3, 6, 3), (4, 9, 3)])
@@ -233,10 +239,26 @@ def _oracle_stream(ctx, G, OFF, only, rterms, rinfo):
                 # verified, a reader must still refuse prefixes the signature does not cover
                 nvict = max(min(k, len(shs) - 1), min(len(shs) - 1, r.randrange(k, len(shs) + 1)))
                 victims = shs[:nvict]
-                fld = r.choice(["k", "N", "segsize", "datalen"])
+                fld = r.choice(["k", "N", "segsize", "datalen", "datalen"])
                 sdmf_off = {"k": (57, 58), "N": (58, 59), "segsize": (59, 67), "datalen": (67, 75)}
                 mdmf_off = {"k": (41, 42), "N": (42, 43), "segsize": (43, 51), "datalen": (51, 59)}
-                delta = r.choice([1, 1, 2, 255])
+                delta = r.choice([1, 1, 2, 255, -1, -1, -2])
+                if i in (2, 3) and k >= 2:
+                    # a data length that leaves the (tail) block size alone -- any other value in (segsize - k, segsize] -- keeps
+                    # every block hash valid: if the forged prefix is ever accepted the read returns truncated or padded,
+                    # i.e. unpublished, bytes
+                    raw0 = g.read_share(shs[0])
+                    lo_s, hi_s = (sdmf_off if raw0[OFF] == 0 else mdmf_off)["segsize"]
+                    lo_d, hi_d = (sdmf_off if raw0[OFF] == 0 else mdmf_off)["datalen"]
+                    segsize0 = int.from_bytes(raw0[OFF + lo_s:OFF + hi_s], "big")
+                    datalen0 = int.from_bytes(raw0[OFF + lo_d:OFF + hi_d], "big")
+                    if datalen0 <= segsize0:
+                        cands = [segsize0 - j for j in range(k) if segsize0 - j != datalen0 and segsize0 - j > 0]
+                        if cands:
+                            fld, delta = "datalen", r.choice(cands) - datalen0
+                            victims = shs[:len(shs) - 1]
+                            case["forged_field"] = fld
+                            case["extra_reads"] = 4
                 case["forged_field"] = fld
             if scenario == "multi-share-header-flip":
                 # shares get a flipped byte in their signed header (root hash): directed -- on every server but one, every share
@@ -342,7 +364,18 @@ def _oracle_stream(ctx, G, OFF, only, rterms, rinfo):
                 altered.add((sh.server, sh.shnum))
             intact_newest = set(shn for (srv, shn) in snaps[-1] if (srv, shn) not in altered)
             out = g.run(g.mutable_read(node.get_uri(), client=r.choice([0, 1])), outcome=True)
+            if case.get("extra_reads"):
+                # whether a forged prefix slips through depends on the order in which the survey's answers are processed
+                more = [g.run(g.mutable_read(node.get_uri(), client=j_ % 2), outcome=True) for j_ in range(case["extra_reads"])]
+                case["extra_reads_results"] = [m_.value for m_ in more if m_.status == "ok"]
         ctx.case((seed, scenario), kind="oracle:%s:%s" % (fmt, scenario))
+        if case.get("extra_reads_results"):
+            wrong = [v for v in case.pop("extra_reads_results") if v not in contents]
+            if wrong:
+                ctx.oracle_fail("read-returned-unpublished-bytes", "a repeated read returned bytes that no write-cap holder published (%d shares carry the same "
+                                "forged %s, one share is intact)" % (len(altered), case.get("forged_field")), case=case,
+                                expected=[c.decode() for c in contents], observed=wrong[0])
+                continue
         if scenario == "offset-forgery" and out.status in ("ok", "error"):
             ctx.count("retry-model-cases")
             # the same state in Model/MutRetry.v: intact shares are good shares of the genuine version (tag 5); the forged ones
